@@ -69,6 +69,45 @@ func symbolProgram(t *rapid.T) string {
 	return fmt.Sprintf("var acc: Int = 0\nvar last: Symbol = :none\nfor i in 1...%d\n  s := \"%s_${i}\".to_symbol\n  last = s\n  acc += s.to_string.length\nend\nprintln(acc)\nprintln(last.inspect)\nprintln((\"%s_1\".to_symbol == :%s_1).inspect)\n", n, tag, tag, tag)
 }
 
+// generatorProgram: generators whose bodies call a deep (non-tail) recursion between
+// two yields and keep running totals in locals: the value stack is reallocated while a
+// generator frame is live on it (a resume copies the generator's saved frame onto the
+// thread's stack and saves it back at the next yield).
+func generatorProgram(t *rapid.T) string {
+	var b strings.Builder
+	b.WriteString("def dive(n: Int): Int\n  a := n + 1\n  b := a * 2\n  return 0 if n <= 0\n  r := dive(n - 1)\n  ((r + b) - b) + 1\nend\n")
+	ng := 1 + vgen.Pick(t, 2, "ngen")
+	for g := 0; g < ng; g++ {
+		k := rapid.IntRange(2, 5).Draw(t, "rounds")
+		fmt.Fprintf(&b, "def *gen%d(seed: Int): Int\n  var total: Int = seed\n  var last: Int = 0\n", g)
+		for i := 0; i < k; i++ {
+			d := rapid.SampledFrom([]int{0, 3, 40, 150, 350, 500, 700}).Draw(t, "depth")
+			switch vgen.Pick(t, 3, "shape") {
+			case 0:
+				fmt.Fprintf(&b, "  total += dive(%d) + %d\n  yield total\n", d, i+1)
+			case 1:
+				fmt.Fprintf(&b, "  last = dive(%d)\n  total = total * 2 + last\n  yield total + last\n", d)
+			default:
+				fmt.Fprintf(&b, "  f%d := ||: Int -> total + last\n  last = dive(%d) + f%d()\n  total += 1\n  yield f%d()\n", i, d, i, i)
+			}
+		}
+		b.WriteString("  total + last\nend\n")
+	}
+	// consume: interleave next calls of the generators, then drain with for-in
+	for g := 0; g < ng; g++ {
+		fmt.Fprintf(&b, "g%d := gen%d(%d)\n", g, g, rapid.IntRange(0, 9).Draw(t, "seed"))
+	}
+	steps := rapid.IntRange(1, 4).Draw(t, "steps")
+	for i := 0; i < steps; i++ {
+		g := vgen.Pick(t, ng, "which")
+		fmt.Fprintf(&b, "do\n  println(g%d.next)\ncatch :stop_iteration\n  println(\"stop\")\nend\n", g)
+	}
+	for g := 0; g < ng; g++ {
+		fmt.Fprintf(&b, "for v in g%d\n  println(v)\nend\n", g)
+	}
+	return b.String()
+}
+
 func seq(n int) []int {
 	s := make([]int, n)
 	for i := range s {
@@ -83,6 +122,8 @@ func gen(t *rapid.T) Case {
 		return Case{Family: "async", Src: asyncProgram(t)}
 	case 1:
 		return Case{Family: "symbols", Src: symbolProgram(t)}
+	case 2:
+		return Case{Family: "generator", Src: generatorProgram(t)}
 	default:
 		prof := mini.ClosureP
 		if rapid.Bool().Draw(t, "control") {
@@ -188,7 +229,7 @@ func minimize(c Case) Case {
 }
 
 func TestSizing(t *testing.T) {
-	pbt.Rule("sizing", "deterministic programs: MiniElk closure/control programs with maker methods and deep(n, f) calls (20..140 extra non-tail frames with three locals each, closures and open upvalues live across them), fans of async tasks awaited in a generated order (default thread pool), programs interning 10..400 fresh symbols; each runs in 8 worker processes started with different ELK_INIT_VALUE_STACK_SIZE (2400 B .. 1 MB), ELK_MAX_VALUE_STACK_SIZE, ELK_CALL_STACK_SIZE, ELK_DEFAULT_THREAD_POOL_SIZE (1..16), ELK_DEFAULT_THREAD_POOL_QUEUE_SIZE (8..256), ELK_SYMBOL_TABLE_INITIAL_SIZE (0..4096); stdout, result and uncaught error must equal the run under the default configuration; a configuration that ends in a documented stack limit is skipped (counted). Non-trivial (mini family) = measured: the worker reports a value-stack capacity above the initial one in at least one configuration, and the program has closures accessing captured variables or deep calls; async/symbol programs always count; distinct by source")
+	pbt.Rule("sizing", "deterministic programs: MiniElk closure/control programs with maker methods and deep(n, f) calls (20..140 extra non-tail frames with three locals each, closures and open upvalues live across them), generators whose bodies call a 0..700-deep recursion between yields and keep running totals and closures over their locals (the stack is reallocated while a generator frame is live), fans of async tasks awaited in a generated order (default thread pool), programs interning 10..400 fresh symbols; each runs in 8 worker processes started with different ELK_INIT_VALUE_STACK_SIZE (2400 B .. 1 MB), ELK_MAX_VALUE_STACK_SIZE, ELK_CALL_STACK_SIZE, ELK_DEFAULT_THREAD_POOL_SIZE (1..16), ELK_DEFAULT_THREAD_POOL_QUEUE_SIZE (8..256), ELK_SYMBOL_TABLE_INITIAL_SIZE (0..4096); stdout, result and uncaught error must equal the run under the default configuration; a configuration that ends in a documented stack limit is skipped (counted). Non-trivial (mini family) = measured: the worker reports a value-stack capacity above the initial one in at least one configuration, and the program has closures accessing captured variables or deep calls; async/symbol programs always count; distinct by source")
 	for _, env := range configs {
 		workers = append(workers, sb.New("debug", env...))
 	}
